@@ -29,6 +29,7 @@ CONSTANTS W,            \* workers 0..W-1
           ConnErrIsFatal,       \* FALSE (NEG) aborted/reset/refused treated like EMFILE
           WakeSkipsAcceptAll,   \* FALSE (NEG) WorkerAvailable only sets the bit
           PauseKeepsRegistered, \* FALSE (NEG)
+          ReportOnlyIfBitSet,   \* FALSE (NEG) a removed handle is reported to the server only if its availability bit was still set
           JumpToFirstAvailable, \* FALSE (NEG) a saturated worker is skipped by jumping to the LOWEST available slot
           ResetSeparate,        \* FALSE (NEG) the waker queue is reset in a critical section of its own, after the empty pop
           RejoinPausedNoAvail   \* FALSE (NEG) a replacement handle that arrives during a pause is stored but not marked available
@@ -430,7 +431,7 @@ ASend ==
                    /\ UNCHANGED <<handles, cmdq, avail, next, closed, cur, tokLeft>>
               ELSE \* the worker is gone: remove the handle, report the fault, keep the connection
                    /\ handles' = RemoveNext
-                   /\ cmdq' = Append(cmdq, i)
+                   /\ cmdq' = (IF ReportOnlyIfBitSet /\ ~avail[i] THEN cmdq ELSE Append(cmdq, i))
                    /\ avail' = [avail EXCEPT ![i] = FALSE]
                    /\ act' = [A("ASend") EXCEPT !.i = i, !.c = inHand, !.x = "closed"]
                    /\ IF Len(handles) = 1
@@ -572,6 +573,10 @@ C08_NoGhostBit == \A i \in Workers : avail[i] => InHandles(i)
 C08_NoDupHandles == Distinct(handles)
 C08_DeadGetsNothingStep == (act'.n = "ASend" /\ act'.x = "ok") => alive[act'.i]
 C08_FaultReportedOnce == Distinct(cmdq) /\ Len(cmdq) <= nfaults
+\* no worker index is ever lost: it is in the rotation, or reported to the server (which will start a replacement), or its
+\* replacement handle is on its way in the waker queue
+C08_NoLostIndex == \A i \in Workers :
+  InHandles(i) \/ (\E k \in 1..Len(cmdq) : cmdq[k] = i) \/ (\E k \in 1..Len(wq) : wq[k] = <<"WK", i>>)
 
 Steps == [][C04_SaturatedGetsNothingStep /\ C04_CyclicStep /\ C05_PausedNoDispatchStep /\ C08_DeadGetsNothingStep]_vars
 
